@@ -96,6 +96,26 @@ def best_by(items, better):
     return cur
 
 
+def expected_values(o, valid):
+    """True optimum of every brute-force statistic over the valid matchings."""
+    maxsize = max(o.size(M) for M in valid)
+    top = [M for M in valid if o.size(M) == maxsize]
+    prof_top = [o.profile(M) for M in top]
+    prof_all = [o.profile(M) for M in valid]
+    want = {
+        'optimal_size': maxsize,
+        'optimal_maxsizemincost': min(o.cost(M) for M in top),
+        'optimal_maxsizemindegree': min(o.degree(M) for M in top),
+        'optimal_maxsizeminsqcost': min(o.cost(M, True) for M in top),
+        'optimal_generousmaxprofile': best_by(prof_top, moregen),
+        'optimal_greedymaxprofile': best_by(prof_top, moregre),
+        'optimal_greedyprofile': best_by(prof_all, moregre),
+        'optimal_max_lec_abs_diff': min(max(o.absdiffs(M) or [0]) for M in valid),
+        'optimal_sum_lec_abs_diff': min(sum(o.absdiffs(M)) for M in valid),
+    }
+    return want, top, prof_top, maxsize
+
+
 def run_case(case):
     inst = case['inst']
     text = refmodel.render(inst)
@@ -122,21 +142,7 @@ def run_case(case):
     missing = [k for k in restext.BF_KEYS if k not in got]
     if missing:
         raise Violation('lines_missing', 'brute-force output lacks %r' % missing)
-    maxsize = max(o.size(M) for M in valid)
-    top = [M for M in valid if o.size(M) == maxsize]
-    prof_top = [o.profile(M) for M in top]
-    prof_all = [o.profile(M) for M in valid]
-    want = {
-        'optimal_size': maxsize,
-        'optimal_maxsizemincost': min(o.cost(M) for M in top),
-        'optimal_maxsizemindegree': min(o.degree(M) for M in top),
-        'optimal_maxsizeminsqcost': min(o.cost(M, True) for M in top),
-        'optimal_generousmaxprofile': best_by(prof_top, moregen),
-        'optimal_greedymaxprofile': best_by(prof_top, moregre),
-        'optimal_greedyprofile': best_by(prof_all, moregre),
-        'optimal_max_lec_abs_diff': min(max(o.absdiffs(M) or [0]) for M in valid),
-        'optimal_sum_lec_abs_diff': min(sum(o.absdiffs(M)) for M in valid),
-    }
+    want, top, prof_top, maxsize = expected_values(o, valid)
     for k in restext.BF_KEYS:
         g, w = got[k], want[k]
         if 'profile' in k and len(g) != o.maxrank:
